@@ -152,12 +152,27 @@ def run_all(props=None, ids=None, jobs=14):
     return out, time.time() - t0
 
 
+def _purge_caches():
+    """Per-variant analysis caches are keyed by the variant's fact serial: nothing of one variant is reused by the next, so a
+    worker that runs hundreds of variants drops them after each (they are several hundred MB per variant otherwise)."""
+    from . import interp as I, inline as L, summaries as S
+    I._INTERP_CACHE.clear()
+    I._CACHE.clear()
+    L._cache.clear()
+    S._memo.clear()
+    S._in_progress.clear()
+    import gc
+    gc.collect()
+
+
 def _run_one(arg):
     m, cmdline = arg
     try:
         return run_mutant(m, feature_set=m.get('config', 'default'), cmdline=cmdline)
     except Exception as e:  # pragma: no cover
         return {'id': m['id'], 'status': 'invalid', 'why': 'internal: %r' % e}
+    finally:
+        _purge_caches()
 
 
 if __name__ == '__main__':
